@@ -671,6 +671,9 @@ class UpdateCollection(Message):
             Attribute.CODE.ORIGIN not in attributes
             or Attribute.CODE.AS_PATH not in attributes
             or (bool(announced_view) and Attribute.CODE.NEXT_HOP not in attributes)
+            # RFC 4271 5.1.3 / RFC 7606 7.3: the NEXT_HOP of the routes of the NLRI field is an IPv4 address.
+            # One of 16 octets decoded, and the IPv4 routes were announced and stored with an IPv6 next hop.
+            or (bool(announced_view) and len(getattr(attributes[Attribute.CODE.NEXT_HOP], '_packed', b'')) != IPv4.BYTES)
         ):
             # RFC 7606 section 3.d: an UPDATE which announces routes without one of the well-known
             # mandatory attributes is treat-as-withdraw (RFC 4271 made it a session reset): the routes
